@@ -276,6 +276,32 @@ def judge_pair(ctx, case, pair, obs, corrupt=None):
                 if case.comp.expected(a, b, emulate=frozenset(emu))[0] == links:
                     known = emu
                     break
+        if known is None and not info.deep and not info.f21 and (info.midseg or info.dijkstra_prepend or info.bypass_gw_is_end):
+            # nested combinations of the same deviations (a bypass inside a bypass, ...): same links up to order, plus the
+            # endpoints' routes to themselves
+            extra = list(links)
+            missing = []
+            for l in exp_links:
+                if l in extra:
+                    extra.remove(l)
+                else:
+                    missing.append(l)
+            allowed = list(info.bypass_self_links)
+            ok_extra = True
+            for l in extra:
+                if l in allowed:
+                    allowed.remove(l)
+                else:
+                    ok_extra = False
+            if not missing and ok_extra:
+                rest = [l for l in links]
+                for l in extra:
+                    rest.remove(l)
+                known = (["up-segment-reversed"] if info.midseg and rest != exp_links else []) + \
+                        (["dijkstra-prepend"] if info.dijkstra_prepend and rest != exp_links else []) + \
+                        (["bypass-endpoint-loopback"] if extra else [])
+                if not known or (rest != exp_links and not (info.midseg or info.dijkstra_prepend)):
+                    known = None
         if known:
             key = "C24:" + "+".join(known)
             why = {"up-segment-reversed": "the links of a zone->gateway route spliced on the way up (below the top zone of the source side) are listed in reverse order",
